@@ -2629,6 +2629,23 @@ class KmipEngine(object):
                         )
                     )
 
+                if encryption_key_params is None:
+                    raise exceptions.InvalidField(
+                        "The encryption key information must include the "
+                        "cryptographic parameters to use for key wrapping."
+                    )
+
+                if managed_object._object_type not in [
+                    enums.ObjectType.SYMMETRIC_KEY,
+                    enums.ObjectType.PUBLIC_KEY,
+                    enums.ObjectType.PRIVATE_KEY,
+                    enums.ObjectType.SPLIT_KEY,
+                    enums.ObjectType.SECRET_DATA
+                ]:
+                    raise exceptions.IllegalOperation(
+                        "Only keys and secret data can be wrapped."
+                    )
+
                 self._logger.info("Wrapping {0} {1} with {2} {3}.".format(
                     ''.join([x.capitalize() for x in object_type.split('_')]),
                     managed_object.unique_identifier,
